@@ -39,6 +39,21 @@ def unit (r : Res Unit) : Res Bytes := match r with | .ok _ => .ok [] | .err => 
 def mapR {α} (f : α → Bytes) (r : Res α) : Res Bytes :=
   match r with | .ok a => .ok (f a) | .err => .err | .panic => .panic
 
+/-- A proof OBJECT from its octets without the decoder's identity checks (Rust objects returned by
+`proof_gen` are handed to `proof_verify` as they are, e.g. with `Abar = O` when `r1 = 0`). -/
+def proofObj (b : Bytes) : Option (PoKSignature Fr G1Pt) := do
+  if b.length < 272 ∨ (b.length - 240) % 32 ≠ 0 then none
+  let A ← G1.fromCompressed (b.take 48)
+  let B ← G1.fromCompressed ((b.drop 48).take 48)
+  let D ← G1.fromCompressed ((b.drop 96).take 48)
+  let e ← Concrete.sDec ((b.drop 144).take 32)
+  let r1 ← Concrete.sDec ((b.drop 176).take 32)
+  let r3 ← Concrete.sDec ((b.drop 208).take 32)
+  let rest := b.drop 240
+  let ss ← (chunks32 rest.length rest).mapM Concrete.sDec
+  let c ← ss.getLast?
+  pure ⟨A, B, D, e, r1, r3, ss.dropLast, c⟩
+
 /-- `some outcome`, or `none` when the line cannot be parsed (reported as `bad-line`). -/
 def runOp (cs : Suite G1Pt) (op : String) (a : List String) : Option (Res Bytes) :=
   let env := Concrete.env
@@ -89,9 +104,9 @@ def runOp (cs : Suite G1Pt) (op : String) (a : List String) : Option (Res Bytes)
   | "proofverify", [pk, proof, hdr, ph, dmsgs, idx] => do
     let pk ← pPk pk; let proof ← pBytes proof; let hdr ← pOBytes hdr; let ph ← pOBytes ph
     let dmsgs ← pOList dmsgs; let idx ← pOIdx idx
-    match PoKSignature.fromBytes env proof with
-    | .ok π => pure <| unit (proofVerify env cs π pk dmsgs idx hdr ph)
-    | _ => none
+    match proofObj proof with
+    | some π => pure <| unit (proofVerify env cs π pk dmsgs idx hdr ph)
+    | none => none
   | "proofverifyraw", [pk, A, B, D, e, r1, r3, m, c, hdr, ph, dmsgs, idx] => do
     let pk ← pPk pk; let A ← pG1 A; let B ← pG1 B; let D ← pG1 D
     let e ← pScalar e; let r1 ← pScalar r1; let r3 ← pScalar r3; let m ← pListWith pScalar m; let c ← pScalar c
@@ -125,9 +140,9 @@ def runOp (cs : Suite G1Pt) (op : String) (a : List String) : Option (Res Bytes)
     let pk ← pPk pk; let proof ← pBytes proof; let hdr ← pOBytes hdr; let ph ← pOBytes ph
     let L ← (if L == "-" then some none else (pNat L).map some)
     let dmsgs ← pOList dmsgs; let dcmsgs ← pOList dcmsgs; let idx ← pOIdx idx; let cidx ← pOIdx cidx
-    match PoKSignature.fromBytes env proof with
-    | .ok π => pure <| unit (blindProofVerify env cs π pk hdr ph L dmsgs dcmsgs idx cidx)
-    | _ => none
+    match proofObj proof with
+    | some π => pure <| unit (blindProofVerify env cs π pk hdr ph L dmsgs dcmsgs idx cidx)
+    | none => none
   | "update", [A, e, sk, old, new, idx, n] => do
     let A ← pG1 A; let e ← pScalar e; let sk ← pScalar sk; let old ← pBytes old; let new ← pBytes new
     let idx ← pNat idx; let n ← pNat n
